@@ -42,6 +42,7 @@ struct VNode {
 // the unit U+0100 | low seven bits - a non-ASCII character whose LOW BYTE is an ASCII character ('{', '}', '<', ':', a digit ...).
 // It is ordinary text: it must be copied through, never read as tag syntax or as a placeholder digit. For char it stays one byte.
 static thread_local bool g_alias = false;
+static thread_local bool g_ref_overflow = false; // the reference met an integer result that does not fit 64 bits (case discarded)
 // alias == 2: the grouping member is named "year", not "g", and objects may carry a member "pear" - a name with the same hash
 // (StringUtils::Hash does not see the first character of a longer name) - in any slot, also the one "year" had in the object before
 static thread_local const char *g_gkey = "g";
@@ -586,14 +587,25 @@ struct Ref {
             return Num{};
         }
         bool real = a.real || b.real;
+        // (a result that does not fit 64 bits is outside the documented arithmetic: the case is discarded, see g_ref_overflow)
+        long long r = 0;
         if (op == "+") {
-            return real ? num_real(a.dbl() + b.dbl()) : num_int(a.i + b.i);
+            if (!real && __builtin_add_overflow(a.i, b.i, &r)) {
+                g_ref_overflow = true;
+            }
+            return real ? num_real(a.dbl() + b.dbl()) : num_int(r);
         }
         if (op == "-") {
-            return real ? num_real(a.dbl() - b.dbl()) : num_int(a.i - b.i);
+            if (!real && __builtin_sub_overflow(a.i, b.i, &r)) {
+                g_ref_overflow = true;
+            }
+            return real ? num_real(a.dbl() - b.dbl()) : num_int(r);
         }
         if (op == "*") {
-            return real ? num_real(a.dbl() * b.dbl()) : num_int(a.i * b.i);
+            if (!real && __builtin_mul_overflow(a.i, b.i, &r)) {
+                g_ref_overflow = true;
+            }
+            return real ? num_real(a.dbl() * b.dbl()) : num_int(r);
         }
         if (op == "/") {
             if (b.dbl() == 0) {
@@ -1787,9 +1799,13 @@ struct H {
 #endif
 #endif
         Scenario s;
+        g_ref_overflow = false;
         make_scenario(c, s);
         if (s.text.size() > (s.very_deep ? 16000u : 6000u)) {
             ctx.discard();
+        }
+        if (g_ref_overflow) {
+            ctx.discard(); // an expression whose exact value leaves 64 bits: not the documented arithmetic (C04 draws the same line)
         }
         if (s.tags >= 2 && s.resolved >= 1) {
             ctx.nontrivial();
